@@ -88,6 +88,14 @@ CHECKS = {
        'compile/purge calls before an observed compile compared with a cache-bypassing parse; cache bound filled past 500.',
   design_ref='DESIGN.md §4 C15',
   technique='CrossHair symbolic execution of real value types + z3 (symbolic fields, histories by symbolic index), replay'),
+ 'C04': dict(
+  text='Symbolic checking that one select() call (whose memo tables are shared by all elements) answers for every element '
+       'as match() does alone, on a forms document whose <html lang>, <meta content>, radio name and submit type are '
+       'symbolic strings; bounded histories (3 calls x 7 entry-point forms x 20 selectors, 5 documents) compared with a '
+       'pristine copy incl. serialisation, attrs and node identity; a probe subclass of the real matcher checks that the '
+       'namespace map / iframe flag are restored on return.',
+  design_ref='DESIGN.md §4 C04',
+  technique='CrossHair symbolic execution of real matcher + z3 (symbolic attribute strings, histories by symbolic index), replay'),
 }
 
 NOT_APPLICABLE = {
